@@ -3,6 +3,7 @@
 from __future__ import annotations
 
 import ast
+import re
 
 from .. import editmachine as em
 from ..editmachine import FST
@@ -32,7 +33,7 @@ BASE_OPTS = {'norm': True, 'raw': False}
 
 def params(tier):
     if tier == 'quick':
-        return {'examples': 350, 'wall': 75, 'case_timeout': 20, 'max_steps': 8}
+        return {'examples': 2500, 'wall': 75, 'case_timeout': 20, 'max_steps': 8}
 
     return {'examples': 1500, 'wall': 1500, 'case_timeout': 30, 'max_steps': 25}
 
@@ -77,7 +78,19 @@ def check_invariant(root, ap, clause='C01.invariant'):
                         f'mismatch:{site}')
 
 
+def excluded(src: str):
+    """Exclusion by construction of inputs covered by known findings (see known_findings.json); counted."""
+
+    if re.search(r'(?m)^[ \t]*;', src):
+        return 'semicolon_own_line'
+
+    return None
+
+
 def execute(case, ctx):
+    if (why := excluded(case['src'])) and not case.get('no_exclude'):
+        raise Skip(f'excluded_known_finding:{why}')
+
     try:
         root = FST(case['src'], 'exec')
     except Exception as exc:
